@@ -592,7 +592,17 @@ class SInt:
     return eng().decide(self.t != 0)
 
   def __index__(self):
-    return eng().concretize(self.t, 'index')
+    e = eng()
+    fmt = e.notes.get('format_placeholder_in')
+    if fmt:
+      import sys  # pylint: disable=g-import-not-at-top
+      f = sys._getframe(1)
+      if f.f_code.co_name in fmt:
+        # '%x' % value inside a function whose text output is not part of the
+        # claim: the rendered text is a placeholder
+        e.notes['format_placeholder_used'] = True
+        return 0
+    return e.concretize(self.t, 'index')
 
   def __int__(self):
     return eng().concretize(self.t, 'int()')
@@ -886,7 +896,10 @@ def _to_sreal(x):
   if _MPQ and isinstance(x, _MPQ):
     return SReal(z3.Q(int(x.numerator), int(x.denominator)))
   if isinstance(x, float):
-    raise PathAbort('inconclusive: float mixed with symbolic real')
+    # exact: a python float is a binary rational
+    import fractions  # pylint: disable=g-import-not-at-top
+    f = fractions.Fraction(x)
+    return SReal(z3.Q(f.numerator, f.denominator))
   return None
 
 
